@@ -491,6 +491,11 @@ def main():
         "real_code": "all of tooling/** compiled from the working tree; cobra root command entry point",
         "stubbed": "os, path/filepath, os/exec, fsnotify (simulated OS)",
     }
+    oneshot_cases = i          # (one-shot cases attempted, rejected ones included)
+    if not check.violations and oneshot_cases >= 20 and totals["generator_rejected"] > 0.4 * oneshot_cases:
+        # a tool that rejects the valid packages of the workload leaves nothing to invalidate: not a violation of this property,
+        # and not a pass either
+        raise tw.HarnessTrouble("yardl rejected %d of %d valid packages of the workload; nothing was decided" % (totals["generator_rejected"], oneshot_cases))
     check.assumptions += ["for write-side faults only the exit status is judged",
                           "a read fault yardl absorbs (exit 0) is counted, not judged"]
     check.finish()
